@@ -433,6 +433,29 @@ def caller_write_events(ctx, n, start):
     events = []
     rng = ctx.rng
     for i in range(n):
+        if rng.random() < 0.08:
+            # a 0-dimensional array handed over as the value to spread over an index
+            a = rng.choice([np.array(3), np.array(1.5), np.array('ab'), np.array(True), np.array('2020-01-01', dtype='datetime64[D]')])
+            name, thunk = rng.choice([('Series_0d_index', lambda: sf.Series(a, index=('x', 'y', 'z'))), ('SeriesHE_0d_index', lambda: sf.SeriesHE(a, index=('x', 'y'))),
+                                      ('Series_0d_hier', lambda: sf.Series(a, index=sf.IndexHierarchy.from_product(('p', 'q'), (1, 2)))),
+                                      ('Series_0d_to_frame', lambda: sf.Series(a, index=('x', 'y'), name='n').to_frame()),
+                                      ('Frame_from_element_0d', lambda: sf.Frame.from_element(a, index=('x', 'y'), columns=('p',))),
+                                      ('Series_from_element_0d', lambda: sf.Series.from_element(a, index=('x', 'y')))])
+            before_a = a.copy()
+            try:
+                c = thunk()
+            except Exception:
+                ctx.count('V_caller_route_rejected')
+                continue
+            before = {'c': deep(c)}
+            touched = not a.flags.writeable or not _same_array(a, before_a)
+            a[()] = {'i': 99, 'f': -7.25, 'U': 'zz', 'b': False, 'M': np.datetime64('1999-09-09')}[a.dtype.kind]
+            after = {'c': deep(c)}
+            events.append({'id': start + len(events), 'kind': 'caller_write', 'target': '0d', 'attr': 'construct:' + name + ':own', 'outcome': 'ok', 'before': before, 'after': after,
+                           'flags': [bool(x.flags.writeable) for x in reachable_arrays(c)], 'wrote': bool(after != before), 'alias': False, 'touched': bool(touched)})
+            ctx.count('V_caller_write')
+            ctx.count('V_caller_mode_0d')
+            continue
         kind = rng.choice(['int', 'float', 'str', 'obj', 'date', '2d', '2d'])
         proto = {'int': np.array([1, 2, 3]), 'float': np.array([1.5, 2.5, 3.5]), 'str': np.array(['a', 'b', 'c']), 'obj': np.array([1, 'x', None], dtype=object),
                  'date': np.array(['2020-01-01', '2020-01-02', '2020-01-03'], dtype='datetime64[D]'), '2d': np.arange(6).reshape(3, 2)}[kind]
